@@ -778,6 +778,45 @@ def run_exhaustive_single(shard):
                              missing=sorted(map(list, exp - got))[:3], extra=sorted(map(list, got - exp))[:3], got=len(got), expected=len(exp))
             acc.outcomes[(case, len(exp))] += 1
     acc.sample({'cases': [list(c) for c in cases[:4]], 'template': '[C:1][Br:2] >> [A:1][O:2], one_shot=False'})
+    # the same with a template that gives TWO product molecules per site (ester hydrolysis): every later stage starts from several molecules
+    rx2 = Reactor((smarts('[C:1](=[O:2])[O:3][C:4]'),), (smarts('[A:1](=[A:2])[O;M]'), smarts('[A:4][A:3]')), one_shot=False, polymerise_limit=6)
+    q_ = smarts('[C:1](=[O:2])[O:3][C:4]')
+    cases2 = [('CC(=O)OC',), ('CC(=O)OCCOC(C)=O',), ('CC(=O)OCC(OC(C)=O)COC(C)=O',), ('CC(=O)OC', 'CCCCCC'), ('CC(=O)OC', 'CCC(=O)OCC'), ('CC(=O)OCCOC(C)=O', 'CCCCCC'), ('COC(=O)CCC(=O)OCC',)]
+    for case in cases2:
+        for order in sorted(set(itertools.permutations(range(len(case))))):
+            acc.states += 1
+            mols = _disjoint([case[i] for i in order])
+            tag = 'exhaustive two-product template | %s | order %s' % (' + '.join(case), list(order))
+            try:
+                rs = list(itertools.islice(rx2(*[m.copy() for m in mols]), 300))
+            except Exception as e:
+                acc.fail('reactor raised %s :: exhaustive two-product template' % type(e).__name__, case=tag)
+                continue
+            acc.transitions += 1 + len(rs)
+            u = _union(mols)
+            sites = sorted({(mp[1], mp[3]) for mp in q_.get_mapping(u, automorphism_filter=False)})
+            exp = set()
+            top = max(u) + 1
+            for r_ in range(1, len(sites) + 1):
+                for sub in itertools.combinations(sites, r_):
+                    atoms, bonds = plain(u)
+                    for j_, (c_, o_) in enumerate(sub):
+                        del bonds[frozenset((c_, o_))]
+                        atoms[top + j_] = ['O', None, 0, False]
+                        bonds[frozenset((c_, top + j_))] = 1
+                    exp.add(tuple(sorted(format(x, 'h') for x in _build_plain(atoms, bonds).split())))
+            got = set()
+            for r in rs:
+                nums = [n for mm in r.products for n in mm]
+                if len(nums) != len(set(nums)):
+                    acc.fail('duplicate atom numbers among the products of a reaction :: exhaustive two-product template', case=tag, got=str(r))
+                    break
+                got.add(tuple(sorted(format(x, 'h') for mm in r.products for x in mm.split())))
+            else:
+                if got != exp:
+                    acc.fail('exhaustive mode does not report exactly the non-empty subsets of the reaction sites :: two-product template', case=tag,
+                             missing=sorted(map(list, exp - got))[:3], extra=sorted(map(list, got - exp))[:3], got=len(got), expected=len(exp))
+            acc.outcomes[(case, len(exp))] += 1
     return acc
 
 
@@ -839,7 +878,7 @@ def plan(tier, seed):
             Stage('multi-reactant Reactor', run_reactor, [(k, 4, tier) for k in range(4)], '4 reactions x 6 reactant pairs x spectators x all reactant orders x renumbering x one_shot on/off; colliding atom numbers'),
             Stage('built-in deprotection templates', run_builtin, [(k, 16, tier) for k in range(16)], 'every deprotection group + apply_all x protected molecules x 2 numberings: unique numbers, valence validity, numbering independence'),
             Stage('frame condition on aromatic molecules', run_aromatic_frame, [0], '4 side-chain templates x 14 aromatic N-H heterocycles in aromatic form x 2 numberings x aromatic post-processing on/off: unnamed atoms keep hydrogens, ring bonds keep orders'),
-            Stage('exhaustive mode, single pattern', run_exhaustive_single, [0], 'halide -> alcohol, one_shot=False, on 8 input tuples x every order of the inputs: product sets = non-empty subsets of the reaction sites'),
+            Stage('exhaustive mode, single pattern', run_exhaustive_single, [0], 'halide -> alcohol on 8 input tuples and ester hydrolysis (two product molecules per site) on 7 input tuples incl. spectators, one_shot=False x every order of the inputs: product sets = non-empty subsets of the reaction sites'),
             Stage('stereo label in the replacement', run_stereo_replacement, [0], '5 replacements (query and molecule; new centres in rings and chains) x 2-4 spellings x Transformer / Reactor: one stereoisomer per replacement'),
             Stage('synthetic multi-reactant Reactor vs edit model', run_reactor_model, [0], '4 reactions x %d ordered reactant pairs (1-4 non-equivalent sites per reactant, equal and different site counts) x spectator x automorphism filter: set of reactions = edit model over every combination of matches' % (2 * len(RMOLS))),
             Stage('prepared reaction collections vs edit model', run_prepared, [('fwd', n, tier) for n in FWD_NAMES] + [('retro', n, tier) for n in RETRO_NAMES],
@@ -857,7 +896,7 @@ def replay(rec):
         accs = [run_prepared((kind, name, 'thorough'))]
     elif 'stereo replacement' in case:
         accs = [run_stereo_replacement(0)]
-    elif 'exhaustive single pattern' in case:
+    elif 'exhaustive single pattern' in case or 'exhaustive two-product template' in case:
         accs = [run_exhaustive_single(0)]
     elif 'fix_aromatic_rings=' in case:
         accs = [run_aromatic_frame(0)]
